@@ -99,6 +99,26 @@ pub fn create_server_config_from_files<P: AsRef<Path>>(
     Ok(Arc::new(config))
 }
 
+/// Create a server TLS config from certificate/private key PEM data already in memory.
+pub fn create_server_config_from_pem(cert_pem: &[u8], key_pem: &[u8]) -> Result<Arc<ServerConfig>> {
+    let certs = rustls_pemfile::certs(&mut &cert_pem[..])
+        .collect::<std::result::Result<Vec<_>, _>>()
+        .map_err(|e| AnyTlsError::Tls(format!("failed to parse certificate: {e}")))?;
+    if certs.is_empty() {
+        return Err(AnyTlsError::Tls("no certificates found".to_string()));
+    }
+
+    let key = rustls_pemfile::private_key(&mut &key_pem[..])
+        .map_err(|e| AnyTlsError::Tls(format!("failed to parse private key: {e}")))?
+        .ok_or_else(|| AnyTlsError::Tls("no private key found".to_string()))?;
+
+    let config = ServerConfig::builder()
+        .with_no_client_auth()
+        .with_single_cert(certs, key)?;
+
+    Ok(Arc::new(config))
+}
+
 /// Certificate verifier that accepts all certificates (for testing only)
 /// Similar to Go's InsecureSkipVerify: true
 #[derive(Debug)]
